@@ -550,10 +550,14 @@ def _():
                             "smethod": rng.choice(["mean", "lstsq"])}, call)
 
 
-@op("dem_dig_d4", classes=R, group="dem")
+@op("dem_dig_d4", classes=R, group="dem", variants=2)
 def _():
-    return (lambda rng, w: {"rivmsk": rng.random() < 0.5},
-            lambda W, a: W.flw.dem_dig_d4(W.arr("elevf", np.float32), rivmsk=W.arr("mask", bool) if a["rivmsk"] else None))
+    def call(W, a):
+        elv = W.arr("elevf", np.float32)
+        if a.get("voids"):   # elevation voids (nodata value) scattered over the network: D4 neighbours without data
+            elv = np.ascontiguousarray(np.where(W.arr("holes", np.int64) == -9999, np.float32(-9999.0), elv))
+        return W.flw.dem_dig_d4(elv, rivmsk=W.arr("mask", bool) if a["rivmsk"] else None)
+    return (lambda rng, w: {"rivmsk": rng.random() < 0.5, "voids": rng.random() < 0.5}, call)
 
 
 @op("hand_floodplains", classes=R, group="dem")
